@@ -78,6 +78,26 @@ def extra_referrers(rng, g, k):
             s = '<text id="%s" xy="#%s|%s" text="t"/>' % (eid, t.id, rng.choice("hHvV"))
             deps = [t.id]
         out.append((eid, "  " + s, deps, kind))
+    # second level: elements positioned against one of the referrers above (the referrer is then itself a target which may be
+    # registered but unresolved when it is looked up)
+    for j, (xid, _, _, xkind) in enumerate(list(out)):
+        if xkind in ("text-rel",) or rng.random() < 0.4:
+            continue
+        yid = "y%d" % j
+        form = rng.choice(["xy-rel", "cxy-loc", "surround", "expr", "connector"])
+        if form == "xy-rel":
+            s = '<rect id="%s" xy="#%s|%s 2" wh="3"/>' % (yid, xid, rng.choice("hHvV"))
+        elif form == "cxy-loc":
+            s = '<circle id="%s" cxy="#%s@%s" r="2"/>' % (yid, xid, rng.choice(geom.LOCS9))
+        elif form == "surround":
+            s = '<rect id="%s" surround="#%s" margin="1"/>' % (yid, xid)
+        elif form == "expr":
+            s = '<rect id="%s" xy="{{#%s~x2 + 1}} {{#%s~y}}" wh="2"/>' % (yid, xid, xid)
+        else:
+            other = rng.choice(anyt)
+            s = '<line id="%s" start="#%s" end="#%s"/>' % (yid, xid, other.id)
+        deps = [xid] + re.findall(r'end="#(\w+)', s)
+        out.append((yid, "  " + s, deps, "on-%s/%s" % (xkind, form)))
     return out
 
 
@@ -206,7 +226,9 @@ def make_case(rng):
     extras = extra_referrers(rng, g, rng.choice([0, 1, 1, 2, 3]))
     for eid, s, deps, kind in extras:
         items.append([eid, s, sorted({top_of.get(d, d) for d in deps}), kind])
-    items = items[:7] if len(items) > 7 else items
+    if len(items) > 8:
+        keep = {i[0] for i in items[:8]}
+        items = [i for i in items[:8] if all(d in keep for d in i[2])]
     els = {eid: (e.shape, [fmt(v) for v in e.box.tuple()] if e.box else None,
                  [fmt(v) for v in (e.line[0] + e.line[1])] if e.line else None, sorted(e.feats)) for eid, e in g.all.items()}
     deps = {eid: sorted(e.deps) for eid, e in g.all.items()}
@@ -237,7 +259,7 @@ def make_negative(rng):
 def run_shard(ctx):
     acc = ctx.acc
     rng = ctx.rng("dags")
-    n = 120 if ctx.quick() else 4000
+    n = 400 if ctx.quick() else 8000
     for j in range(n):
         if ctx.out_of_time():
             acc.notes.append("time budget reached after %d DAGs" % j)
